@@ -62,6 +62,8 @@ def shapes():
     wf('wf-0', first, lambda i, n: 0, None)
     wf('wf-top', first, lambda i, n: ('<<', 1, ('-', W_, 1)), None)
     wf('wf-all', first, lambda i, n: ('-', ('<<', 1, W_), 1), nxt)
+    wf('wf-neg-1', first, lambda i, n: ('-', 0, 1), None)        # a negative value has no finite set of bits to flip: rejected
+    wf('wf-not-5', first, lambda i, n: ('~', 5), first)
     wf('wf-ret-2^w', first, lambda i, n: 6, lambda i, n: ('+', ('<<', 1, W_), ('*', 4, W_)))  # a return address that does not fit
     for k in (1, 2, 3, 4, 6):
         S.append((f'pad{k}', lambda i, n, k=k: ('pad', k)))
